@@ -171,8 +171,13 @@ def r_who_release(ctx: Ctx, rule="R01.3"):
     rel = ctx.effects(fields=["_enough_room"], kinds=["release", "maybe-release"])
     rep.floor(rule, "release sites of the pool semaphore", len(rel), 1)
     for e in rel:
-        rep.ob(rule, "the pool slot is released only by _task_ending", ctx.hosts(e.node.func) <= {"_task_ending"} and ctx.in_pool(e.node.func), node=e.node,
-               detail=f"release in {e.node.func.short}")
+        in_ending = ctx.hosts(e.node.func) <= {"_task_ending"} and ctx.in_pool(e.node.func)
+        if in_ending:
+            rep.ob(rule, "the pool slot is released only by _task_ending (or by the acquirer for a slot it still owns)", True, node=e.node)
+        else:
+            ok, why = slot_balance(ctx, e.node.func)
+            rep.ob(rule, "the pool slot is released only by _task_ending (or by the acquirer for a slot it still owns)", ok and ctx.in_pool(e.node.func), node=e.node,
+                   detail=f"release in {e.node.func.short}: {why}")
     # exactly-one release per task over all edges of the wrapper
     pred = release_pred(ctx)
     ef = ctx.feasible()
@@ -182,6 +187,38 @@ def r_who_release(ctx: Ctx, rule="R01.3"):
             kind = "return" if key[0] == "ret" else f"{'cancellation' if key[0] == 'c' else 'exception'} {key[1][0].rpartition('.')[2]}"
             rep.ob(rule, f"on every path of the task wrapper ending by {kind} the slot is released exactly once", counts == frozenset({1}),
                    func=w, construct=f"exit:{kind}", detail=f"possible release counts {sorted(counts)} (2 = two or more)")
+
+
+def slot_balance(ctx: Ctx, f: FuncInfo):
+    """Typestate over one invocation of a function that acquires pool slots: a release outside _task_ending is legitimate only
+    for a slot this invocation acquired (the acquire completed) and has not handed to a created task."""
+    bad: List[str] = []
+
+    def transfer(ai: AbsInt, n: Node, lab: Label, st):
+        held, handed = st
+        normal = lab[0] in NORMAL_KINDS
+        if normal and n.op == "await" and ctx.is_ext_await(n, "Semaphore.acquire") and n.awaited.recv_path == SLOT:
+            held = min(2, held + 1)
+        if normal and any(e.kind == "release" and e.path == SLOT for e in ctx.eff.of_node(n)):
+            if held >= 1 and not handed:
+                held -= 1
+            else:
+                ai.event(n, "releases a pool slot this invocation does not own (none acquired, or already handed to the created task)", st)
+        if normal and n.op == "call" and ctx.is_ext_call(n, *CREATE_TASK):
+            arg = coro_arg(n.ast)
+            if isinstance(arg, ast.Call) and any(t.name == "_task_wrapper" for t in ctx.an.scope(n.func).callee(arg).targets):
+                handed = True
+        return [(held, handed)]
+
+    ai = AbsInt(ctx.an, transfer)
+    exits = ai.run(f, (0, False))
+    for e in ai.events:
+        bad.append(f"{e.node.where()}: {e.msg} (held={e.state[0]}, handed={e.state[1]}); path: " + " ".join(e.trace[-4:]))
+    for k, sts in exits.items():
+        for held, handed in sts:
+            if k[0] == "ret" and not (held == 1 and handed):
+                bad.append(f"normal return with held={held}, handed={handed}")
+    return (not bad), ("; ".join(bad) if bad else "slot balance holds")
 
 
 def r_who_write_semaphore(ctx: Ctx, rule="R01.4"):
@@ -334,16 +371,28 @@ def r_snapshot_forget(ctx: Ctx, rule="R13.1", funcs=("flush",)):
             for r in ctx.distinct_sites(removals):
                 eff = [e for e in ctx.eff.of_node(r) if e.kind in ("clear", "remove", "assign") and field_of(e.path) in ("_tasks_ended", "_tasks_cancelled", "_tasks_running")][0]
                 before = [s for s in susp if can_follow(s, r)]
+                # (b) forget <= gathered: the tasks forgotten were awaited first
+                if name == "flush":
+                    gathered = _forgotten_were_gathered(ctx, f, [c for c in removals if c.ast is r.ast and c.op == r.op], eff)
+                    rep.ob(rule, f"tasks are removed from {eff.path} only after flush has awaited them (a task still inside its callbacks is never forgotten)", gathered, node=r,
+                           detail="" if gathered else "no completed gather over these tasks dominates the removal: tasks still inside their cancel/end callbacks are dropped, "
+                                                      "and their later _task_ending cannot find them")
                 if not before:
                     rep.ob(rule, "removal not preceded by a suspension step", True, node=r)
                     continue
-                ok = _removal_is_snapshot_keyed(ctx, f, r, eff, before)
+                # judge every CFG instance of the removal (clean-up code is instantiated per continuation:
+                # the copy that runs after the gather was interrupted must satisfy the rule as well)
+                copies = [c for c in removals if c.ast is r.ast and c.op == r.op]
+                verdicts = [_removal_is_snapshot_keyed(ctx, f, c, eff, [s for s in susp if can_follow(s, c)]) for c in copies]
+                ok = False if any(v is False for v in verdicts) else (None if any(v is None for v in verdicts) else True)
+                badcopy = next((c for c, v in zip(copies, verdicts) if v is False), None)
                 # other writers of the registry exist?  (E6: writers != {f})
                 others = [e for e in ctx.effects(fields=[field_of(eff.path)], kinds=["insert"]) if e.node.func is not f]
                 if ok is False and not others:
                     ok = True
-                rep.ob(rule, f"removal from {eff.path} after a suspension is restricted to ids snapshotted before it", ok, node=r,
-                       detail="" if ok else f"`{r.text(60)}` follows the suspension at {before[-1].where()} ({before[-1].text(50)}); entries inserted into "
+                tagtxt = "" if badcopy is None or not badcopy.tag else f" [on the path resuming '{badcopy.tag[-1][1][0]}' after the protected block, i.e. when the wait did not complete]"
+                rep.ob(rule, f"removal from {eff.path} after a suspension is restricted to ids snapshotted before it and gathered meanwhile", ok, node=r,
+                       detail="" if ok else f"`{r.text(60)}` follows the suspension at {before[-1].where()} ({before[-1].text(50)}){tagtxt}; entries inserted into "
                                             f"{eff.path} by {sorted({ctx.fname(e.node.func) for e in others})} while {f.name} is suspended are dropped without having been gathered")
 
 
@@ -354,7 +403,7 @@ def _removal_is_snapshot_keyed(ctx: Ctx, f: FuncInfo, r: Node, eff, susp_before:
     sc = ctx.an.scope(f)
     if eff.kind == "assign":
         # rebuild by filtering: self._tasks_ended = {k: v for k, v in self._tasks_ended.items() if k not in snapshot / not v.done()}
-        val = getattr(r.ast, "value", None)
+        val = _assigned_value(ctx, f, r, eff)
         if isinstance(val, (ast.DictComp,)) and val.generators and val.generators[0].ifs:
             src = ctx.eff.paths(f).of(val.generators[0].iter)
             if src == eff.path:
@@ -406,6 +455,49 @@ def _removal_is_snapshot_keyed(ctx: Ctx, f: FuncInfo, r: Node, eff, susp_before:
         if any(v is False for v in verdicts):
             return False
     return None
+
+
+def _assigned_value(ctx: Ctx, f: FuncInfo, r: Node, eff) -> Optional[ast.AST]:
+    """value stored into eff.path by assignment r (tuple assignments resolved element-wise)"""
+    st = r.ast
+    val = getattr(st, "value", None)
+    targets = st.targets if isinstance(st, ast.Assign) else [getattr(st, "target", None)]
+    for t in targets:
+        if isinstance(t, (ast.Tuple, ast.List)) and isinstance(val, (ast.Tuple, ast.List)) and len(t.elts) == len(val.elts):
+            for te, ve in zip(t.elts, val.elts):
+                if ctx.eff.paths(f).of(te) == eff.path:
+                    return ve
+    return val
+
+
+def _forgotten_were_gathered(ctx: Ctx, f: FuncInfo, copies: List[Node], eff) -> bool:
+    g = ctx.an.cfg(f)
+    gathers = [n for n in g.nodes if n.pred and n.op == "await" and n.awaited is not None and n.awaited.kind == "ext" and n.awaited.name in GATHER]
+    sc = ctx.an.scope(f)
+    P = ctx.eff.paths(f)
+
+    def covers(G: Node) -> bool:
+        call = strip_cast(G.ast.value)
+        for a in call.args:
+            p = P.of(a)
+            if p == eff.path:
+                return True
+            # a local snapshot built from the registry
+            for nm in [x.id for x in ast.walk(a) if isinstance(x, ast.Name)]:
+                for h in sc.defs.get(nm, []):
+                    v = h[1] if h[0] == "assign" else (h[2] if h[0] == "ann" else None)
+                    if v is not None and any(P.of(x) == eff.path for x in ast.walk(v) if isinstance(x, ast.Attribute)):
+                        return True
+                    if h[0] == "elt":
+                        src = h[1][1] if len(h[1]) > 1 else None
+                        if src is not None and any(P.of(x) == eff.path for x in ast.walk(src) if isinstance(x, ast.Attribute)):
+                            return True
+        return False
+
+    good = [G for G in gathers if covers(G)]
+    if not good:
+        return False
+    return all(dominated_by_completion(g, good, c) for c in copies)
 
 
 def _snapshot_gathered(ctx: Ctx, f: FuncInfo, r: Node, name: str, eff) -> Optional[bool]:
@@ -539,7 +631,7 @@ def r_registry_who(ctx: Ctx, rule="R03.1"):
             rep.ob(rule, f"{kind} on {fld} only by {sorted(allowed)}", ok, node=e.node, detail=f"{e.kind} {e.path} on behalf of {sorted(hosts)}")
             if kind == "insert":
                 counts["insert" if fld == "_tasks_running" else "move"] += 1
-            elif kind in ("clear",) or (kind == "remove" and hosts <= {"flush", "gather_and_close"}):
+            elif kind in ("clear",) or (kind in ("remove", "assign") and hosts <= {"flush", "gather_and_close"}):
                 counts["forget"] += 1
             elif kind == "remove":
                 counts["move"] += 1
